@@ -18,6 +18,11 @@ MOLS = {
     "NH2": dict(atom="N 0 0 0.14; H 0 0.80 -0.49; H 0 -0.80 -0.49", basis="sto-3g", spin=1),
     "NH3": dict(atom="N 0 0 0.12; H 0 0.94 -0.27; H 0.81 -0.47 -0.27; H -0.81 -0.47 -0.27", basis="sto-3g", spin=0),
     "Hed": dict(atom="He 0 0 0", basis={"He": [[0, [1.9, 1.0]], [1, [1.0, 1.0]], [2, [1.4, 1.0]]]}, spin=0),
+    # generally contracted shells (NCTR = 2 on both atoms): the AO <-> shell bookkeeping of the SDMX code differs from
+    # the segmented case only here
+    "LiHgc": dict(atom="Li 0 0 -0.35; H 0 0 1.25", basis={
+        "Li": [[0, [16.1, 0.15, -0.03], [2.9, 0.53, -0.12], [0.8, 0.44, 0.1], [0.06, 0.0, 1.0]], [1, [0.16, 1.0]]],
+        "H": [[0, [3.4, 0.15, 0.0], [0.62, 0.53, 0.2], [0.17, 0.44, 1.0]]]}, spin=0),
     "H2": dict(atom="H 0 0 -0.37; H 0 0 0.37", basis={"H": [[0, [1.2, 1.0]], [0, [0.3, 1.0]], [1, [0.8, 1.0]]]}, spin=0),
 }
 
